@@ -871,7 +871,7 @@ func runChain(t *rapid.T, rec *ev.Rec) {
 				t.Fatalf("VIOLATION(C11-like): B rejects A's valid proposal: %v", e2)
 			}
 		}
-		committedAt, forked := -1, false
+		committedAt, forked, forkedBlock := -1, false, false
 		nCand := rapid.IntRange(5, 12).Draw(t, "nCand")
 		// draw all candidates of this height, then offer those that must be rejected first and the genuine ones last (after
 		// the first commit only the "same certificate at another node height" rule is exercised)
@@ -941,6 +941,17 @@ func runChain(t *rapid.T, rec *ev.Rec) {
 				}
 			} else {
 				committedAt = ci
+				if c.override != nil {
+					// an "either" next-block candidate (another but acceptable last certificate embedded, certified by a quorum):
+					// B committed THAT block, not A's; what it holds must be exactly what was offered; the chain ends here
+					got, e2 := b.Serve(e.height)
+					if e2 != nil || !bytes.Equal(got.Block, c.qc.Block) || !bytes.Equal(got.BlockHash, c.qc.BlockHash) {
+						t.Fatalf("VIOLATION C02: B committed height %d but its archive does not hold the offered block (%v)", e.height, e2)
+					}
+					forkedBlock = true
+					cs.Done(true)
+					break
+				}
 				checkCommitted(t, e, b, c)
 				if !c.qc.EqualPayloads(e.base) {
 					// B committed a certificate a (Byzantine) quorum signed with another results hash / proposer key than the honest
@@ -949,6 +960,9 @@ func runChain(t *rapid.T, rec *ev.Rec) {
 				}
 			}
 			cs.Done(c.nontrivial || c.kind == "subset")
+		}
+		if forkedBlock {
+			break // B holds another (acceptable) block of this height than A will: no lock-step continuation
 		}
 		// B still accepts the valid pair afterwards
 		if committedAt < 0 {
